@@ -20,7 +20,7 @@ PROP = "C19"
 TAG_CLI = "C19/cli"
 TAG_INPROC = "C19/inproc"
 
-KB_CHOICES = [1, 1, 1, 1, 2, 2, 2, 3, 4, 4, 5, 8, 8, 16, 32, 64]
+KB_CHOICES = [1, 1, 1, 1, 2, 2, 2, 3, 4, 4, 5, 8, 8, 16, 32, 64, 100, 300, 1000]     # (the in-process batches use the first 14)
 
 TIERS = {
     # cli runs, inproc batches, runs per batch
